@@ -284,6 +284,8 @@ def _units():
             for m in METHODS:
                 units.append((f"common.make_derivative[axes={n},axis={ax},{m}]", derivative_unit(n, ax, m, False)))
             units.append((f"common.make_derivative2[axes={n},axis={ax}]", derivative_unit(n, ax, None, True)))
+    from . import nine_point
+    units.extend(nine_point.units_C01())
     units.append(("lemma.difference_quotients", lemma_difference_quotients))
     units.append(("lemma.spherical_conservative", lemma_spherical_conservative))
     units.append(("coverage.registered_operators", coverage_unit))
@@ -339,7 +341,7 @@ ASSUMPTIONS = [
 ]
 NOT_COVERED = [
     "spectral Laplacians (use_spectral, off by default; rocket_fft absent)",
-    "9-point 2-d Laplacian (corner_weight != 0, non-default)",
+    "9-point 2-d Laplacian (corner_weight != 0, non-default): kernel == (1-w) five-point + w diagonal stencil proved for all w, consistency lemma for dx = dy; the accuracy of the interpolated corner points next to non-periodic corners is not part of the claim",
     "scipy/ndimage reference kernels, jax/torch back ends (not installed)",
     "get_operator_info name parsing for d_d<axis> patterns (bounded native check only)",
     "complex inputs: covered by linearity of the proved stencil (real coefficients act on Re and Im separately), not re-proved",
